@@ -424,6 +424,17 @@ class C14:
             res["broken"].append("component replay of rt/path.rs: " + mism[0])
         for d in direct[:3]:
             res["violations"].append(d)
+        # termination of single executions: programs whose loops all exit must be explored to the end
+        chain = gen.fam_chain_spin()
+        fam2 = FamilyRun(ctx, chain, "c14spin")
+        for i, p in fam2.parsed.items():
+            run = p["run"] or ""
+            if not run.startswith("ok"):
+                res["violations"].append({"prog": chain[i], "deviation": "an execution of a program whose loops all exit did not terminate: " + run[:80]})
+        wm2 = fam2.whole_run_mismatches()
+        if wm2:
+            m = wm2[0]
+            res["broken"].append(f"correspondence L vs implementation (chained spinners): `{m.get('prog')}` iteration {m.get('iteration')}")
         st = fam.stats()
         res["coverage"] = {
             "programs": st["programs"], "iterations": st["iterations"],
@@ -703,7 +714,9 @@ class C18(OutcomeCheck):
     ref_mode = "refw"
     kinds = ("missing", "missed-failure", "spurious-failure")
     det_family = lambda self, ctx: gen.fam_spin_core(ctx.tier)
-    rnd_family = lambda self, ctx: []
+    # correspondence only: with two threads spinning at once R (where a failed poll constrains nothing) asks for
+    # combinations of "failed before" bits that loom's yield rule (not before another thread has run) excludes
+    rnd_family = lambda self, ctx: gen.fam_chain_spin()
 
 
 def lock_trace_check(fam, lines):
